@@ -7,7 +7,7 @@ from . import C01
 from pyPRISM.core.Space import Space
 
 RULE = ("(closure) all four closures x hard-core flag x {HardSphere, HardCoreLennardJones, Exponential, soft potentials} on real Domain grids with sigma on / between grid points, "
-        "gamma normal with +-50 tails: inside the core c must equal -1-gamma BITWISE (flag, or PY/HNC without flag on the shipped overlap values), compared with the Lean closure model; "
+        "gamma normal with +-50 tails and (a quarter of the cases) 720/800 at the first grid points: inside the core c must equal -1-gamma BITWISE (flag, or PY/HNC without flag on the shipped overlap values), compared with the Lean closure model; "
         "(cost) random multi-pair systems in which only SOME pairs have cores, arbitrary x (zero/moderate/asymmetric): after every cost(x) the back-transformed c satisfies c + gamma_in = -1 "
         "and g = h+1 = y/r at every core point of every cored pair, model correspondence of the whole evaluation; (solve) solved 1-3 component objects, every scipy method: |g| <= |fun|/r inside "
         "every core; (sweep) one System edited (diameters) and re-used for createPRISM: cores follow the current diameters. Non-trivial = a cored pair next to an uncored one or non-zero gamma; distinct = distinct case")
@@ -39,6 +39,8 @@ def suite_closure(ctx, case):
     rs = np.random.RandomState(case['gseed'])
     g = rs.normal(size=L) * case['gamp']
     g[rs.randint(L)] = 50.0; g[rs.randint(L)] = -50.0
+    if case.get('huge'):
+        g[0] = 800.0; g[min(1, L - 1)] = 720.0          # exp(gamma) alone overflows; gamma - H/kT does not
     clo = CLO[kind](apply_hard_core=hc); clo.sigma = sigma; clo.potential = u
     with np.errstate(all='ignore'):
         c = clo.calculate(d.r, g.copy())
@@ -97,6 +99,11 @@ def suite_solve(ctx, case):
     ctx.dist['solve:converged:' + case['method']] += 1
     n = sd['n']; d = p.sys.domain
     fun = np.abs(np.asarray(res.fun, dtype=float)).reshape((-1, n, n))
+    for pre in case.get('pre', []):
+        if pre == 'sf': pyPRISM.calculate.structure_factor(p)
+        elif pre == 'b2': pyPRISM.calculate.second_virial(p)
+        elif pre == 'pmf':
+            with np.errstate(all='ignore'): pyPRISM.calculate.pmf(p)
     g = pyPRISM.calculate.pair_correlation(p)
     for (i, j) in G.pairs_of(n):
         pr = sd['pairs']['%d%d' % (i, j)]
@@ -169,7 +176,7 @@ def generate(ctx):
         pot = G.gen_pot(rng, sigma, soft_ok=hc, explicit_sigma=0.0)
         if not hc and kind in ('msa', 'ms'): kind = rng.choice(['py', 'hnc'])
         case = {'dom': [L, dr], 'clo': [kind, hc], 'sigma': sigma, 'kT': rng.choice([1.0, 1.0, 0.5, 2.0, 10.0]), 'pot': pot,
-                'gseed': rng.randrange(10 ** 6), 'gamp': rng.choice([0.0, 1.0, 5.0])}
+                'gseed': rng.randrange(10 ** 6), 'gamp': rng.choice([0.0, 1.0, 5.0]), 'huge': rng.random() < 0.25}
         ctx.case('closure', case, case['gamp'] > 0, tags=['clo:%s%s' % (kind, '+hc' if hc else ''), 'pot:' + pot[0], 'sigma:' + ('grid' if c < 0.5 else 'off-grid')])
         suite_closure(ctx, case)
     for _ in range(ctx.n(50, 400)):
@@ -190,6 +197,7 @@ def generate(ctx):
     for q in range(ctx.n(12, 100)):
         sd = C01.gen_solvable(rng, maxn=ctx.n(2, 3), maxL=ctx.n(32, 64))
         m = methods[q % len(methods)]
-        case = {'sys': sd, 'method': m, 'guess': None if rng.random() < 0.7 else G.gen_x(rng, sd, 'small')}
-        ctx.case('solve', case, True, tags=['method:' + m, 'rank:%d' % sd['n']])
+        case = {'sys': sd, 'method': m, 'guess': None if rng.random() < 0.7 else G.gen_x(rng, sd, 'small'),
+                'pre': rng.choice([[], ['sf'], ['b2', 'sf'], ['pmf'], ['sf', 'pmf']])}
+        ctx.case('solve', case, True, tags=['method:' + m, 'rank:%d' % sd['n'], 'pre:' + '+'.join(case['pre'])])
         suite_solve(ctx, case)
